@@ -1130,6 +1130,8 @@ type responseWriter struct {
 	// whoever uses the response writer next (or when the handler returns).
 	readErrMu sync.Mutex
 	readErr   error
+	// number of response messages handed on towards the client
+	respMsgs int
 }
 
 func (w *responseWriter) Header() http.Header {
@@ -1306,6 +1308,7 @@ func (w *responseWriter) Flush() {
 }
 
 func (w *responseWriter) flushMessage() {
+	w.respMsgs++
 	if w.buf != nil {
 		// we are buffering until we see trailers, so we don't
 		// want to actually flush the underlying response writer yet
@@ -1353,6 +1356,16 @@ func (w *responseWriter) reportEnd(end *responseEnd) {
 		// where various receivers all call reportEnd. We will only respect the
 		// first such call and ignore the others.
 		return
+	}
+	if end.err == nil && w.respMsgs == 0 && w.op.clientEnveloper == nil && w.op.serverEnveloper != nil {
+		// The client's protocol has no way to say "success, but no message":
+		// an empty body would be taken for a message (and is not even one in
+		// every codec).
+		end = &responseEnd{
+			err:      connect.NewError(connect.CodeInternal, errors.New("response ended without a message")),
+			httpCode: http.StatusInternalServerError,
+			trailers: end.trailers,
+		}
 	}
 	if w.respMeta != nil && len(w.respMeta.pendingTrailers) > 0 && len(end.trailers) == 0 {
 		// add any pending trailers to the end
@@ -1823,6 +1836,13 @@ func (w *transformingWriter) Write(data []byte) (n int, err error) {
 }
 
 func (w *transformingWriter) Close() error {
+	if w.buffer == nil && w.err == nil && w.rw.op.serverEnveloper == nil && !w.rw.endWritten {
+		// The handler wrote no body at all. Without envelopes that is the
+		// message encoded in zero bytes, and it still has to be re-encoded
+		// for the client (or rejected, if zero bytes are no message in the
+		// server's codec).
+		w.reset()
+	}
 	if w.expectingBytes == -1 {
 		if !w.rw.endWritten { // nothing may follow the end of the RPC
 			if err := w.flushMessage(); err != nil {
